@@ -4,13 +4,13 @@ import json
 
 from coqrun import ni, pb
 from gen import pyref, txgen, txprobe
-from gen.util import SECP_N, lib_vs_model, short
+from gen.util import rbytes, SECP_N, lib_vs_model, short
 
 DRIVERS = ['C06', 'C05']
 NEEDS = dict(cli=True, harness=True, shim=False, release=True)
 RULE = ("generated transactions of the three kinds: every numeric field from {0,1,0x7f,0x80,0xff,0x100,2^64-1,2^64,2^255,2^256-1} "
         "and random widths 1..32 bytes, recipient present/absent/null, calldata lengths {0,1,55,56,57,255,256,1100,...}, access "
-        "lists of 0..4 entries x 0..6 keys (thorough: up to 40 keys), chain ids {absent,0,1,137,2^32,2^64-1,2^64,(2^256-37)/2}; "
+        "lists of 0..4 entries x 0..6 keys (thorough: up to 40 keys), access lists of 127..1500 entries (powers of two +-1, primes), chain ids {absent,0,1,137,2^32,2^64-1,2^64,(2^256-37)/2}; "
         "signed with keys until both parities occur; kind-dispatch documents (null-valued and mixed keys); for each: model vs "
         "implementation (encoding, signing hash), reference encoder, strict decode of the signed bytes back to every field, "
         "sender recovery; a case is distinct by its document and key")
@@ -50,6 +50,11 @@ def run(ctx):
     for n in txgen.DATA_LENS:
         t = txgen.rand_tx(rng, small=True)
         t.f["data"] = txgen.rand_data(rng, n)
+        txs.append(t)
+    # access lists with many entries: counts around 2^7/2^8 and counts that are not a multiple of anything convenient (primes)
+    for n in [127, 128, 129, 131, 191, 255, 256, 257, 509, 1021, rng.randrange(130, 1500)] + ([2053, 4099] if thorough else []):
+        t = txgen.rand_tx(rng, kind=rng.choice([1, 2]), small=True)
+        t.f["accessList"] = [(rbytes(rng, 20), [rbytes(rng, 32) for _ in range(rng.choice([0, 0, 1, 2]))]) for _ in range(n)]
         txs.append(t)
     docs = [txgen.render(rng, t) for t in txs]
     probes = txprobe.run_docs(ctx, docs, "C06", clause="tx-vs-model")
